@@ -19,9 +19,9 @@ import (
 	"github.com/foxboron/go-uefi/efivar"
 
 	"verifharness/adapt"
-	"verifharness/ref/acode"
 	"verifharness/gen"
 	"verifharness/hx"
+	"verifharness/ref/acode"
 	"verifharness/ref/esl"
 )
 
@@ -178,9 +178,7 @@ func dbRunner(db *signature.SignatureDatabase) runner {
 		case "Bytes":
 			return digest(db.Bytes())
 		case "Marshal":
-			var b bytes.Buffer
-			db.Marshal(&b)
-			return digest(b.Bytes())
+			return marshalled(db.Marshal)
 		case "ListBytes":
 			if len(*db) == 0 {
 				return "-"
@@ -204,6 +202,22 @@ func dbRunner(db *signature.SignatureDatabase) runner {
 			return fmt.Sprint(db.Exists(l.SignatureType, l))
 		}
 	}
+}
+
+// marshalled encodes into a buffer of the caller's and then does with that buffer what a caller may do with its
+// own memory: overwrite the bytes it got, reset the buffer and use it for something else. The buffer belongs to the
+// caller; none of this may reach the object that was encoded.
+func marshalled(marshal func(*bytes.Buffer)) string {
+	var b bytes.Buffer
+	marshal(&b)
+	out := b.Bytes()
+	d := digest(out)
+	for i := range out {
+		out[i] ^= 0xa5
+	}
+	b.Reset()
+	b.WriteString("the caller reuses its buffer for something else")
+	return d
 }
 
 func checkCase(c Case) error {
@@ -286,9 +300,7 @@ func checkCase(c Case) error {
 		if c.Object == "signed_update" {
 			run = func(op Op) string {
 				if op.Kind == "Marshal" {
-					var b bytes.Buffer
-					m.Marshal(&b)
-					return digest(b.Bytes())
+					return marshalled(m.Marshal)
 				}
 				return digest(m.Bytes())
 			}
@@ -310,9 +322,7 @@ func checkCase(c Case) error {
 				return func(op Op) string {
 					switch op.Kind {
 					case "Marshal":
-						var b bytes.Buffer
-						a.Marshal(&b)
-						return digest(b.Bytes())
+						return marshalled(a.Marshal)
 					case "Verify":
 						ok, err := a.Verify(id.Cert)
 						return fmt.Sprint(ok, err)
